@@ -117,16 +117,40 @@ NoFault == [kind |-> "none"]
 FileLen(ch, f) == IF f = "primary" THEN ch.plen ELSE IF f = "secondary" THEN ch.slen ELSE ch.clen
 
 \* the files after a fault
+Rep(n, v) == [i \in 1..n |-> v]
 Apply(fs, flt) ==
-    IF flt.kind = "truncate"
-    THEN [fs EXCEPT ![flt.chunk] =
-            IF flt.file = "primary" THEN [@ EXCEPT !.plen = flt.k]
-            ELSE IF flt.file = "secondary" THEN [@ EXCEPT !.slen = flt.k]
-            ELSE [@ EXCEPT !.clen = flt.k]]
-    ELSE IF flt.file = "primary"
-    THEN [fs EXCEPT ![flt.chunk].poff[flt.j] = flt.v]
-    ELSE [fs EXCEPT ![flt.chunk].sat =
-            [n \in 1..Len(@) |-> IF @[n][1] = (flt.j - 1) * E THEN <<@[n][1], flt.v>> ELSE @[n]]]
+    LET ch == fs[flt.chunk] IN
+    CASE flt.kind = "truncate" ->
+           [fs EXCEPT ![flt.chunk] =
+               IF flt.file = "primary" THEN [@ EXCEPT !.plen = flt.k]
+               ELSE IF flt.file = "secondary" THEN [@ EXCEPT !.slen = flt.k]
+               ELSE [@ EXCEPT !.clen = flt.k]]
+      [] flt.kind = "corrupt" /\ flt.file = "primary" ->
+           [fs EXCEPT ![flt.chunk].poff[flt.j] = flt.v]
+      [] flt.kind = "corrupt" /\ flt.file = "secondary" ->
+           [fs EXCEPT ![flt.chunk].sat =
+               [n \in 1..Len(@) |-> IF @[n][1] = (flt.j - 1) * E THEN <<@[n][1], flt.v>> ELSE @[n]]]
+      \* region faults: whole entries j .. j+n-1 filled with a constant (0x00.. -> 0, 0xff.. -> huge)
+      [] flt.kind = "fill" /\ flt.file = "primary" ->
+           [fs EXCEPT ![flt.chunk].poff = [i \in 1..Len(@) |-> IF flt.j <= i /\ i < flt.j + flt.n THEN flt.v ELSE @[i]]]
+      [] flt.kind = "fill" /\ flt.file = "secondary" ->
+           [fs EXCEPT ![flt.chunk].sat =
+               [n \in 1..Len(@) |->
+                   IF @[n][1] % E = 0 /\ (flt.j - 1) * E <= @[n][1] /\ @[n][1] < (flt.j - 1 + flt.n) * E
+                   THEN <<@[n][1], flt.v>> ELSE @[n]]]
+      \* the file grows by n entries of constant content (padding)
+      [] flt.kind = "extend" /\ flt.file = "primary" ->
+           [fs EXCEPT ![flt.chunk] = [@ EXCEPT !.poff = @ \o Rep(flt.n, flt.v), !.plen = @ + flt.n * W]]
+      [] flt.kind = "extend" /\ flt.file = "secondary" ->
+           [fs EXCEPT ![flt.chunk] = [@ EXCEPT !.sat = @ \o [i \in 1..flt.n |-> <<ch.slen + (i - 1) * E, flt.v>>],
+                                                !.slen = @ + flt.n * E]]
+      \* offsets j .. j+n-1 of the primary index written twice
+      [] flt.kind = "dup" ->
+           [fs EXCEPT ![flt.chunk] =
+               [@ EXCEPT !.poff = SubSeq(@, 1, flt.j + flt.n - 1) \o SubSeq(@, flt.j, Len(@)), !.plen = @ + flt.n * W]]
+
+Whole(ch) == ch.plen = 1 + W * Len(ch.poff) /\ ch.slen % E = 0
+NEntries(ch, f) == IF f = "primary" THEN Len(ch.poff) ELSE ch.slen \div E
 
 Truncate(c, f, k) ==
     /\ fault = NoFault /\ out = <<>>
@@ -149,6 +173,30 @@ CorruptSecondary(c, j, v) ==
     /\ fault = NoFault /\ out = <<>>
     /\ c \in 1..Len(files) /\ j \in 1..(files[c].slen \div E)
     /\ fault' = [kind |-> "corrupt", chunk |-> c, file |-> "secondary", j |-> j, v |-> v]
+    /\ files' = Apply(files, fault')
+    /\ UNCHANGED out
+
+\* region faults (one per run, on intact files)
+FillRegion(c, f, j, n, v) ==
+    /\ fault = NoFault /\ out = <<>>
+    /\ c \in 1..Len(files) /\ f \in {"primary", "secondary"} /\ Whole(files[c])
+    /\ j >= 1 /\ n >= 1 /\ j + n - 1 <= NEntries(files[c], f)
+    /\ fault' = [kind |-> "fill", chunk |-> c, file |-> f, j |-> j, n |-> n, v |-> v]
+    /\ files' = Apply(files, fault')
+    /\ UNCHANGED out
+
+ExtendFile(c, f, n, v) ==
+    /\ fault = NoFault /\ out = <<>>
+    /\ c \in 1..Len(files) /\ f \in {"primary", "secondary"} /\ Whole(files[c]) /\ n >= 1
+    /\ fault' = [kind |-> "extend", chunk |-> c, file |-> f, n |-> n, v |-> v]
+    /\ files' = Apply(files, fault')
+    /\ UNCHANGED out
+
+DupPrimary(c, j, n) ==
+    /\ fault = NoFault /\ out = <<>>
+    /\ c \in 1..Len(files) /\ Whole(files[c])
+    /\ j >= 1 /\ n >= 1 /\ j + n - 1 <= Len(files[c].poff)
+    /\ fault' = [kind |-> "dup", chunk |-> c, file |-> "primary", j |-> j, n |-> n]
     /\ files' = Apply(files, fault')
     /\ UNCHANGED out
 
